@@ -42,11 +42,11 @@ def run_property(pid, tier, root=None, overrides=None, quiet=False):
         err = str(e)
     except Exception:
         err = "internal error in the analyser: " + traceback.format_exc()
-    if err is None:
-        un = rep.unmet_floors()
-        if un:
-            err = "; ".join("%s: %s matched %d instance(s), below the hand-confirmed floor %d (the rule would pass "
-                            "vacuously)" % (f["rule"], f["what"], f["count"], f["floor"]) for f in un)
+    un = rep.unmet_floors()
+    if un and (err is None or err.startswith("internal error")):
+        tail = ("  [followed by: %s]" % err.strip().splitlines()[-1]) if err else ""
+        err = "; ".join("%s: %s matched %d instance(s), below the hand-confirmed floor %d (the rule would pass "
+                            "vacuously)" % (f["rule"], f["what"], f["count"], f["floor"]) for f in un) + tail
     return rep, ctx, err
 
 
